@@ -8,13 +8,14 @@ CHECKS = {
         "rule": "Exhaustive differential monitor: every i16 through Felt::new, every residue through neg/inverse/centred "
                 "representative, every pair (a,b) in [0,q)^2 through add/sub/mul/multiply and (b != 0) division, compared with i64 arithmetic "
                 "mod 12289 under a panic monitor, in the release and in the overflow-checked build; batch inversion on "
-                "seeded vectors with zeros at every position. distinct_nontrivial = number of distinct left operands a "
+                "seeded vectors with zeros at every position; a concurrency leg in which all cores invert and divide different "
+                "residues at the same time (every result checked). distinct_nontrivial = number of distinct left operands a "
                 "whose complete row of q right operands was checked (all of them are non-trivial: each row exercises "
                 "the conditional reductions on both sides of q).",
         "assumptions": ["the harness's own i64 % 12289 arithmetic", "operands enter through Felt::new (itself checked exhaustively)"],
         "exhaustive": True,
         "exhaustive_scope": "all 65536 conversions, all 12289 residues (unary), all 12289^2 pairs (add, sub, mul, multiply, div with b != 0); batch inversion is sampled",
-        "legs": [{"name": "exhaustive", "profiles": BOTH}],
+        "legs": [{"name": "exhaustive", "profiles": BOTH}, {"name": "concurrent"}],
         "technique": "exhaustive differential monitor (reference-model oracle) + panic monitor on release and overflow-checked builds",
         "level_text": "Every input of the finite domain is executed on the real code and compared with an i64 reference; "
                       "complete for conversions, unary and binary operations, sampled for batch inversion.",
